@@ -360,7 +360,7 @@ var settingVals = map[string][]string{
 		`<ObjectLockConfiguration><ObjectLockEnabled>Enabled</ObjectLockEnabled><Rule><DefaultRetention><Mode>COMPLIANCE</Mode><Years>2</Years></DefaultRetention></Rule></ObjectLockConfiguration>`,
 		`<ObjectLockConfiguration><ObjectLockEnabled>Enabled</ObjectLockEnabled></ObjectLockConfiguration>`,
 	},
-	"acl": {"id=bob", "id=bob,id=carol", "", "xml:bob=READ,bob=WRITE", "xml:carol=READ_ACP,bob=READ,carol=WRITE,bob=WRITE_ACP", "xml:bob=FULL_CONTROL"},
+	"acl": {"bob", "bob,carol", "", "xml:bob=READ,bob=WRITE", "xml:carol=READ_ACP,bob=READ,carol=WRITE,bob=WRITE_ACP", "xml:bob=FULL_CONTROL"},
 }
 
 // aclGrants: the (grantee, permission) pairs an ACL value of the settings machine stands for
@@ -372,9 +372,10 @@ func aclGrants(val string) map[string]bool {
 		}
 		return out
 	}
+	// (the gateway's grant headers list account ids as they are)
 	for _, g := range strings.Split(val, ",") {
-		if id, ok := strings.CutPrefix(g, "id="); ok {
-			out[id+"=READ"] = true
+		if g != "" {
+			out[g+"=READ"] = true
 		}
 	}
 	return out
@@ -404,6 +405,11 @@ func tagsOf(doc string) string {
 	sort.Strings(p)
 	return strings.Join(p, "&")
 }
+
+const sidecarKeyFinding = "C16-sidecar-object-keys-collide-with-bucket-settings"
+
+// strictS: the finding's own replay runs without the exclusion
+var strictS bool
 
 var engSS = map[bool]*gw.InProc{} // by metadata store: xattr, sidecar
 
@@ -457,6 +463,25 @@ func runS(c caseS) error {
 			}
 			engS = ne
 			engSS[c.Sidecar] = ne
+		case "objput", "objdel":
+			// an object whose key looks like the place a metadata store might keep the bucket's own settings: object
+			// and settings must not get in each other's way
+			ok := []string{"meta", "meta/acl", "meta/policy", "meta/X-Amz-Tagging", "meta/versioning", "meta/ownership", "meta/bucket-lock"}[o.Val%7]
+			if c.Sidecar && kf.Open(sidecarKeyFinding) && !strictS {
+				// listed finding: in the sidecar store these very keys share their place with the bucket's settings
+				ev.Exclude("known finding " + sidecarKeyFinding + ": object keys below meta/ on the sidecar store")
+				continue
+			}
+			if o.Kind == "objdel" {
+				cl.MustCall("DELETE", "/"+b+"/"+ok, nil, nil, nil)
+				continue
+			}
+			r := cl.MustCall("PUT", "/"+b+"/"+ok, nil, nil, []byte("object data "+ok))
+			if r.OK() {
+				if g := cl.MustCall("GET", "/"+b+"/"+ok, nil, nil, nil); g.Status != 200 || string(g.Body) != "object data "+ok {
+					return fmt.Errorf("%s: the object %q was acknowledged but reads back as %d %q", where, ok, g.Status, g.Body)
+				}
+			}
 		case "recreate":
 			// the (empty) bucket is deleted and created again under the same name: a new bucket, nothing
 			// of what the deleted one was given applies to it
@@ -499,6 +524,8 @@ func runS(c caseS) error {
 			}
 			if r.OK() {
 				model[o.Setting] = val
+			} else if r.Status >= 500 {
+				return fmt.Errorf("%s: writing a valid %s setting answers %v", where, o.Setting, r)
 			}
 		case "delete":
 			if o.Setting != "tagging" && o.Setting != "policy" && o.Setting != "ownership" {
@@ -600,9 +627,9 @@ func runS(c caseS) error {
 func TestC16Settings(t *testing.T) {
 	ev.Check(t, "C16S", func(t *rapid.T) {
 		opg := rapid.Custom(func(t *rapid.T) opS {
-			return opS{Kind: rapid.SampledFrom([]string{"put", "put", "put", "get", "get", "get", "delete", "restart", "recreate"}).Draw(t, "kind"),
+			return opS{Kind: rapid.SampledFrom([]string{"put", "put", "put", "get", "get", "get", "delete", "restart", "recreate", "objput", "objdel"}).Draw(t, "kind"),
 				Setting: rapid.SampledFrom([]string{"tagging", "policy", "acl", "ownership", "versioning", "lock"}).Draw(t, "setting"),
-				Val:     rapid.IntRange(0, 5).Draw(t, "val")}
+				Val:     rapid.IntRange(0, 6).Draw(t, "val")}
 		})
 		c := caseS{Ops: rapid.SliceOfN(opg, 2, 16).Draw(t, "ops"), Sidecar: rapid.Bool().Draw(t, "sidecar")}
 		ev.Trace("C16S", c)
@@ -642,7 +669,11 @@ func TestC16Settings(t *testing.T) {
 	})
 }
 
-var handlers = map[string]pt.Handler{"C16N": pt.Wrap(runN), "C16B": pt.Wrap(runB), "C16S": pt.Wrap(runS)}
+var handlers = map[string]pt.Handler{"C16N": pt.Wrap(runN), "C16B": pt.Wrap(runB), "C16S": pt.Wrap(runS), "C16SS": pt.Wrap(func(c caseS) error {
+	strictS = true
+	defer func() { strictS = false }()
+	return runS(c)
+})}
 
 func TestReplay(t *testing.T) { pt.Replay(t, handlers) }
 func TestKnown(t *testing.T)  { pt.Known(t, "C16", handlers) }
